@@ -1,7 +1,8 @@
 (* Property C02 — deposits and withdrawals never dilute other liquidity providers.
    Statements only; proofs in Proofs/LiquidityProofs.v. Constant product: proved. Stableswap mint vs. exact
-   invariant: not proved (sampled through the correspondence, see DESIGN.md); the literal withdrawal lower bound
-   "pro-rata minus one unit" is refuted for the unchanged code (18-digit truncation of the share ratio). *)
+   invariant: not proved (sampled through the correspondence, see DESIGN.md). The withdrawal bounds are stated for
+   the code after the repair `fix: withdraw_liquidity pays the exact pro-rata share` (before it the share ratio was
+   truncated to 18 digits and the literal lower bound was false; recorded as fixed in known_findings.json). *)
 From MD.Model Require Import Base Ownable Epoch PoolMath Types PoolManager.
 From MD.Proofs Require Import PoolMathProofs SwapProofs PmProofs LiquidityProofs.
 
@@ -40,18 +41,13 @@ Theorem C02_withdraw_at_most_pro_rata : forall r a S,
   0 <= r -> 0 <= a -> 0 < S -> withdraw_refund r a S * S <= r * a.
 Proof. exact withdraw_refund_upper. Qed.
 
-(* ... and at least that minus one unit minus reserve/10^18 (what the current code guarantees) *)
-Theorem C02_withdraw_lower_bound_of_current_code : forall r a S,
-  0 <= r -> 0 <= a -> 0 < S -> r * a <= (withdraw_refund r a S + 1) * S + r * S / DEC + S.
+(* ... and at least that minus one smallest unit *)
+Theorem C02_withdraw_at_least_pro_rata_minus_one : forall r a S,
+  0 <= r -> 0 <= a -> 0 < S -> r * a < (withdraw_refund r a S + 1) * S.
 Proof. exact withdraw_refund_lower. Qed.
 
-(* the literal "minus one smallest unit" is false once a reserve exceeds 10^18 (known finding F-share18) *)
-Theorem C02_withdraw_minus_one_unit_refuted :
-  exists r a S, 0 <= r /\ 0 <= a /\ 0 < S /\ a <= S /\ (withdraw_refund r a S + 1) * S < r * a.
-Proof. exact withdraw_refund_literal_refuted. Qed.
-
-Theorem C02_redeemable : forall r a S,
-  0 <= r -> 0 < S -> 0 <= a -> DEC <= r * (a * DEC / S) -> 0 < withdraw_refund r a S.
+(* while withdrawals are enabled a holder can redeem any LP amount worth at least one unit of some asset *)
+Theorem C02_redeemable : forall r a S, 0 < S -> S <= r * a -> 0 < withdraw_refund r a S.
 Proof. exact withdraw_refund_positive. Qed.
 
 (* LP tokens are created only by deposits and destroyed only by withdrawals: no other pool-manager message emits
@@ -70,7 +66,6 @@ Print Assumptions C02_cp_deposit_never_dilutes.
 Print Assumptions C02_cp_first_deposit.
 Print Assumptions C02_withdraw_effect.
 Print Assumptions C02_withdraw_at_most_pro_rata.
-Print Assumptions C02_withdraw_lower_bound_of_current_code.
-Print Assumptions C02_withdraw_minus_one_unit_refuted.
+Print Assumptions C02_withdraw_at_least_pro_rata_minus_one.
 Print Assumptions C02_redeemable.
 Print Assumptions C02_lp_minted_only_by_deposits_burned_only_by_withdrawals.
